@@ -15,6 +15,7 @@ from ..core import CACHE, VERIF, HarnessResult, Scratch, parse_harness_specs
 PID = "C18"
 HARNESS = VERIF / "harness" / "config" / "c18.rs"
 CONFIG_REL = "runtime/pavex/src/config/mod.rs"
+MACRO_REL = "runtime/pavex_macros/src/config_profile.rs"
 
 
 def prepare(sc: Scratch) -> dict:
@@ -25,13 +26,27 @@ def prepare(sc: Scratch) -> dict:
     hcopy = pkg / "c18.rs"
     shutil.copy(HARNESS, hcopy)
     shutil.copy(VERIF / "harness" / "nd.rs", pkg / "nd.rs")
+    # the real derive macro: runtime/pavex_macros/src/config_profile.rs, path-included unmodified into a
+    # small proc-macro crate (the whole pavex_macros crate would drag pavexc_attr_parser and darling in)
+    mac = pkg / "macros"
+    (mac / "src").mkdir(parents=True)
+    (mac / "Cargo.toml").write_text(
+        '[package]\nname = "pavex_macros"\nversion = "0.0.0"\nedition = "2024"\n[lib]\nproc-macro = true\n'
+        '[dependencies]\nconvert_case = "0.10"\nproc-macro2 = "1"\nquote = "1"\nsyn = "2"\n')
+    (mac / "src" / "lib.rs").write_text(
+        "use proc_macro::TokenStream;\n"
+        f'#[path = "{sc.repo / MACRO_REL}"]\nmod config_profile;\n'
+        "#[proc_macro_derive(ConfigProfile, attributes(px))]\n"
+        "pub fn derive_config_profile(input: TokenStream) -> TokenStream {\n    config_profile::derive_config_profile(input)\n}\n")
     root = pkg / "root.rs"
     root.write_text(
         "#![allow(static_mut_refs, dead_code)]\n"
+        "// the derive's output names `pavex::config::ConfigProfile`\n"
+        "extern crate self as pavex;\n"
         f'#[path = "{sc.repo / CONFIG_REL}"]\npub mod config;\n'
         f'#[cfg(kani)]\n#[path = "{hcopy}"]\nmod verif_c18;\n')
     toml = (VERIF / "harness" / "config" / "Cargo.toml.in").read_text()
-    (pkg / "Cargo.toml").write_text(toml.replace("@ROOT@", str(root)).replace("@SHIMS@", str(VERIF / "shims")))
+    (pkg / "Cargo.toml").write_text(toml.replace("@ROOT@", str(root)).replace("@SHIMS@", str(VERIF / "shims")).replace("@MACROS@", str(mac)))
     specs = [s for s in parse_harness_specs(HARNESS.read_text()) if s.name.startswith(("c18_", "dbg_"))]
     for s in specs:
         s.qual = "verif_c18::"
@@ -42,7 +57,7 @@ def prepare(sc: Scratch) -> dict:
         # MiniSat decides these pointer-heavy, arithmetic-light instances 4-10x faster than Kani's default CaDiCaL (measured)
         "kani_args": ["--solver", "minisat"],
         "jobs": {"quick": 2, "thorough": 2},
-        "rewrites": {"path_included": CONFIG_REL, "source_rewrites": "none"},
+        "rewrites": {"path_included": [CONFIG_REL, MACRO_REL], "source_rewrites": "none"},
         "assumptions": [
             "figment shim: three abstract sources (base file, profile file, environment) whose per-key presence and value the harness chooses; merge = later source wins, join = earlier wins (figment's documented semantics); figment itself, YAML parsing, key casing and file discovery are the trusted base",
             "std::env::var is stubbed: PX_PROFILE is absent, 'dev', 'prd' or 'zz' (arbitrary choice)",
@@ -52,7 +67,7 @@ def prepare(sc: Scratch) -> dict:
             "Kani 0.68 / CBMC 6.11 / CaDiCaL trusted; results hold within the stated bounds only",
         ],
         "evidence_extra": {
-            "encoded_files": [CONFIG_REL],
+            "encoded_files": [CONFIG_REL, MACRO_REL + " (the real derive macro, run by rustc; its expansion is what the solver sees)"],
             "engine": "Kani 0.68.0 -> CBMC 6.11.0 (CaDiCaL) over the MIR of the real config module against contract shims",
         },
     }
